@@ -192,7 +192,7 @@ def layered(  # pylint: disable=too-many-arguments,too-many-locals,too-many-bran
     # L3
     if l3:
         o1 = core.Opts(kinds=kinds, cond_level=1, nsubs=0)
-        sizes = (1,) if tier == "quick" else (1, 2)
+        sizes = (1,)
         for size in sizes:
             for prog, k in core.skeletons(size, o1):
                 if k < 2:
